@@ -7,7 +7,7 @@ for cf in sorted(glob.glob('/tmp/confirm/*-C*.json')):
     src = f'/tmp/mut{g}-out/{pid}'
     if c.get('status') != 'confirmed':
         print('skip', g, pid, c.get('status')); continue
-    dst = f'/verif/seeded/{pid}' if g in 'ABCDE' else f'/verif/seeded/{pid}-2'
+    dst = f'/verif/seeded/{pid}' if g in 'ABCDE' else (f'/verif/seeded/{pid}-2' if g in 'FGHIJ' else f'/verif/seeded/{pid}-3')
     os.makedirs(dst, exist_ok=True)
     shutil.copy(f'{src}/patch.diff', f'{dst}/patch.diff')
     shutil.copy(f'{src}/demo.diff', f'{dst}/demo.diff')
